@@ -108,6 +108,49 @@ fn lu_suite_one(run: &Run, tag: &str, a: &[f64], n: usize, exact_det: Option<f64
                 run.outcome(&("lu-ok", tag, swapped, n.min(9)));
                 run.regime(if swapped { "lu-with-row-swaps" } else { "lu-without-swaps" });
             }
+            // "the determinant equals the signed product of U's diagonal": against the returned factors,
+            // the product accumulated with a separate exponent (the partial products may leave the f64 range
+            // although the determinant does not)
+            if a_ok && b_ok {
+                let (mut mant, mut expo) = (1.0f64, 0i64);
+                for i in 0..n {
+                    let u = mlu.data[i * n + i];
+                    if u == 0.0 {
+                        mant = 0.0;
+                        break;
+                    }
+                    let e = u.abs().log2().floor() as i32;
+                    mant *= u / 2f64.powi(e.clamp(-1000, 1000)) / 2f64.powi(e - e.clamp(-1000, 1000));
+                    expo += e as i64;
+                }
+                let mut seen = vec![false; n];
+                let mut sign = 1.0;
+                for i in 0..n {
+                    if !seen[i] {
+                        let (mut j, mut len) = (i, 0);
+                        while !seen[j] {
+                            seen[j] = true;
+                            j = mpiv[j] as usize;
+                            len += 1;
+                        }
+                        if len % 2 == 0 {
+                            sign = -sign;
+                        }
+                    }
+                }
+                let want = if mant == 0.0 { Some(0.0) } else if (-1000..=1000).contains(&expo) { Some(sign * mant * 2f64.powi(expo as i32)) } else { None };
+                if let Some(want) = want.filter(|w| w.is_finite() && (*w == 0.0 || w.abs() > 1e-290)) {
+                    let mat = Matrix::new(a.to_vec(), n as i32, n as i32);
+                    run.trs(2);
+                    for (what, got) in [("Matrix.det", guard(|| mat.det())), ("lu_det", guard(|| mlu.lu_det(mpiv)))] {
+                        match got {
+                            Ok(g) if (g - want).abs() <= 1e-12 * want.abs() => run.regime("det-is-signed-pivot-product"),
+                            Ok(g) => run.violate(&format!("{}/not-the-signed-product-of-U-diagonal", what), || format!("{} (order {}, largest entry {:e}): {} = {:e}, sign(P)·∏u_ii of the returned factors = {:e}", tag, n, a.iter().fold(0.0f64, |m, v| m.max(v.abs())), what, g, want)),
+                            Err(p) => run.violate(&format!("{}/panic", what), || format!("{}: {}", desc(), p)),
+                        }
+                    }
+                }
+            }
             // determinant
             if let Some(d) = exact_det {
                 let hadamard: f64 = (0..n).map(|i| (0..n).map(|j| a[i * n + j] * a[i * n + j]).sum::<f64>().sqrt()).product();
@@ -523,6 +566,25 @@ pub fn run(run: &Run) {
             run.nontrivial(1);
         }
     });
+    // ---- entries of mixed magnitude: a modest diagonal with one huge entry, one scaled row, one tiny column ----
+    {
+        let orders: Vec<usize> = if run.thorough() { (2..=32).collect() } else { vec![3, 8, 12, 20, 24, 31, 32] };
+        orders.par_iter().for_each(|&n| {
+            for &dg in &[0.11, 1.0, 7.5] {
+                let base: Vec<f64> = (0..n * n).map(|t| if t / n == t % n { dg } else { 0.01 * (((t * 7) % 11) as f64 - 5.0) }).collect();
+                for &(kind, mag) in &[(0usize, 3e9), (0, 4.3e9), (0, 1e-9), (1, 1e10), (1, 1e16), (1, 1e-16), (2, 1e-12), (2, 1e12), (1, 1e100), (1, 1e-100)] {
+                    let mut a = base.clone();
+                    match kind {
+                        0 => a[(n / 2) * n + (n - 1)] = mag,
+                        1 => (0..n).for_each(|j| a[(n / 3) * n + j] *= mag),
+                        _ => (0..n).for_each(|i| a[i * n + n / 2] *= mag),
+                    }
+                    lu_suite(run, "mixed-magnitude", &a, n, None);
+                    run.nontrivial(1);
+                }
+            }
+        });
+    }
     // ---- triangular systems ----------------------------------------------------------------------
     let tl = [1.0, -2.0, 0.5, 3.0];
     for n in 1..=12usize {
